@@ -265,7 +265,12 @@ class Ctx:
 
     def write_field(self, ref, field, v):
         ty = self.engine.field_type(field)
-        t = ty.encode(v, self)
+        if isinstance(v, VOpaque) and not isinstance(ty, type(Any)) and getattr(v, 'note', '') != 'other':
+            v = self.force(VAL.unbox(v.t), 'unbox')
+        try:
+            t = ty.encode(v, self)
+        except VAL.EncodeError as e:
+            raise Unsupported('value %r does not fit the declared type of field %r' % (v, field))
         self.heap[field] = z3.Store(self.field_array(field), ref, t)
 
     def new_object(self, clsname):
